@@ -268,6 +268,20 @@ def chunk_decoder_faults(chunk, acc):
         acc.case(("repeated", rnd, order), nontrivial=True, outcome=str(got)[:60])
         if got != want:
             acc.fail("C05/decoder/repeated-packet-not-reported", {"kind": "decoder_faults", "seed": acc.seed, "order": list(order), "round": rnd}, str(want), str(got)[:300])
+    # verification is a property of the decoder *now*: switched on after construction it rejects a changed packet,
+    # switched off after construction it does not
+    ct0, sg0 = pk[0]
+    forged = (bytes([ct0[0] ^ 1]) + ct0[1:], sg0)
+    for built, later in ((False, True), (True, False), (True, True), (False, False)):
+        acc.states += 1
+        acc.transitions += 1
+        dec = c2.C2Http(bconfig, aes_rand=r, verify_hmac=built)
+        dec.verify_hmac = later
+        res = call(lambda: [(p.counter, bytes(p.data)) for p in dec.iter_recover_http(message([forged]))])
+        rejected = isinstance(res, str) and res.startswith("EXC ValueError")
+        acc.case(("verify-switch", built, later), nontrivial=True, outcome=str(res)[:30])
+        if rejected != later:
+            acc.fail("C05/decoder/verification-switch-ignored", {"kind": "decoder_faults", "seed": acc.seed, "constructed_with": built, "set_to": later}, "ValueError" if later else "decrypted without verification", str(res)[:200])
     for n in (1, 2, 3):
         acc.states += 1
         dec = c2.C2Http(bconfig, aes_rand=r)
